@@ -118,11 +118,46 @@ def long_session(ctx: Ctx, n_sends, seed=0):
     return s, vec, head
 
 
+def aged_sessions(ctx: Ctx):
+    """The 12 h key lifetime runs from the accepted handshake: sessions kept ACTIVE (traffic every 6 h) must re-handshake all the same."""
+    from .. import sched
+    rng = ctx.rng
+    plans = [["auth", "send", "half", "send", "half", "send", "send"],
+             ["auth", "half", "send", "send", "half", "send", "half", "send", "half", "send"],
+             ["auth", "send", "half", "auth", "half", "send", "half", "send"],
+             ["auth", "half", "close", "send", "half", "send", "half", "send"],
+             ["auth", "half", "send", "half", "auth", "send", "half", "send", "half", "send"]]
+    for _ in range(ctx.pick(12, 200)):
+        plans.append(["auth"] + [rng.choice(["send", "send", "half", "half", "auth", "close", "full"]) for _ in range(rng.randint(4, 12))] + ["send"])
+    runs = []
+    for k, pl in enumerate(plans):
+        s = sched.Session(version=3, retries=3, seed=ctx.seed * 977 + k)
+        try:
+            for a in pl:
+                if a == "auth":
+                    s.call_auth("good")
+                    s.settle()
+                elif a == "send":
+                    s.call_send()
+                    s.settle()
+                elif a == "half" and "jumphalf" in s.enabled() and s.lan._protocol is not None and s.lan._protocol.authenticated:
+                    s.jumphalf()
+                elif a == "full" and s.lan._protocol is not None and s.lan._protocol.authenticated:
+                    s.jumpauth()
+                elif a == "close" and "peerclose" in s.enabled():
+                    s.peerclose()
+        finally:
+            s.close()
+        runs.append({"steps": s.steps, "events": s.trace, "stuck": None, "plan": pl})
+    return runs
+
+
 def run(ctx: Ctx) -> int:
     q = ctx.quick
     # (a) the design: exhaustive
     session.clause_reachability(ctx, "C07")
     session.mc(ctx, 3, 2, name="C07_mc_v3_r2_c2", calls=2, coverage=True)
+    session.mc(ctx, 3, 2, name="C07_mc_v3_r2_c3_halves", calls=3, halves=True, life=False, hs="HSValid", data="DataValid")
     session.mc(ctx, 3, 2, name="C07_mc_v3_r2_c2_allclasses", calls=2, hs="HSAll", data="DataAll", fly=2)
     if not q:
         session.mc(ctx, 3, 2, name="C07_mc_v3_r2_c3", calls=3, coverage=True)
@@ -140,6 +175,9 @@ def run(ctx: Ctx) -> int:
     session.validate(ctx, runs3, ver=3, retries=3, name="C07_sim", what="TLC-simulated behaviour replayed into LAN")
     walks = [session.walk(ctx.seed * 65537 + k, ver=3, retries=3, steps=ctx.pick(40, 70)) for k in range(ctx.pick(400, 8000))]
     session.validate(ctx, walks, ver=3, retries=3, name="C07_walk", what="random walk over the model's environment alphabet")
+    aged = aged_sessions(ctx)
+    session.validate(ctx, aged, ver=3, retries=3, name="C07_aged", what="active session ageing in half-lifetime steps")
+    ctx.extra["aged_sessions"] = len(aged)
     check_canaries(ctx, walks + runs3, 3, 3)
     for r in runs2 + runs3 + walks:
         ctx.count_distinct(tuple((e["e"], e.get("t"), e.get("reply"), e.get("r"), e.get("m")) for e in r["events"]))
@@ -163,7 +201,7 @@ def run(ctx: Ctx) -> int:
         rule="LanSession model: V3, retries 2-3, <=2 (quick) / <=3 (thorough) calls exhaustively, all reply classes; TLC-generated behaviours: all "
              "1-call behaviours + simulated 4-6-call behaviours replayed into msmart.lan.LAN; random walks of 40-70 environment actions over "
              "{send, authenticate good/bad, connect ok/refused/hanging, deliver/lose any in-flight message, timer, cancel, peer close, 12 h jump, "
-             "lifetime jump} x reply classes {valid, forged (5 kinds), error, garbage, encrypted, none, bad tag/inner, stray handshake reply, "
+             "half-lifetime steps on active sessions, lifetime jump} x reply classes {valid, forged (5 kinds), error, garbage, encrypted, none, bad tag/inner, stray handshake reply, "
              "unsolicited, duplicate}; one connection carrying > 65,536 packets; distinct = distinct observable event sequences",
         assumptions=["device derives a fresh session key for every handshake request with the right token (rotate-on-handshake device model)",
                      "reading F5: 'latest handshake' = latest handshake whose reply the client accepted (DESIGN 6.1)"])
